@@ -366,7 +366,11 @@ func (g *c08gen) stackFor(op byte) (stack [][]byte, mode string) {
 	if op == 0xac && r.Intn(2) == 0 { // consistent (sig, msg, key) triple
 		k := g.keys[r.Intn(len(g.keys))]
 		msg := g.msgs[r.Intn(len(g.msgs))]
-		return [][]byte{g.bytesItem(), ed25519.Sign(k.priv, msg), cp(msg), cp(k.pub)}, "shaped"
+		sg := ed25519.Sign(k.priv, msg)
+		if r.Intn(3) == 0 {
+			sg = malleate(sg)
+		}
+		return [][]byte{g.bytesItem(), sg, cp(msg), cp(k.pub)}, "shaped"
 	}
 	if op == 0xc0 && r.Intn(2) == 0 { // items… n predicate limit
 		var st [][]byte
@@ -758,6 +762,10 @@ func (g *c08gen) multisigFamily(c *Ctx) {
 	}
 	outsider := vmKeys(5)[4]
 	sigOf[len(g.keys)] = ed25519.Sign(outsider.priv, msg)
+	// the malleated twin R||(S+L) of every genuine signature: signer index 100+i
+	for i := range g.keys {
+		sigOf[100+i] = malleate(sigOf[i])
+	}
 	for n := 1; n <= maxN && n <= len(g.keys); n++ {
 		for _, dup := range []bool{false, true} {
 			keyIdx := make([]int, n)
@@ -772,6 +780,11 @@ func (g *c08gen) multisigFamily(c *Ctx) {
 			}
 			signers := append([]int{}, keyIdx...)
 			signers = append(signers, len(g.keys)) // plus the non-listed key
+			if !dup && n <= 3 {
+				for _, ki := range keyIdx { // plus the malleated twins of the listed keys' signatures
+					signers = append(signers, 100+ki)
+				}
+			}
 			for m := 1; m <= n; m++ {
 				total := 1
 				for i := 0; i < m; i++ {
@@ -796,8 +809,15 @@ func (g *c08gen) multisigFamily(c *Ctx) {
 			}
 		}
 	}
-	// CHECKSIG: every (signer, key) pair
+	// CHECKSIG: every (signer, key) pair, genuine and malleated
+	csSigners := []int{}
 	for si := 0; si <= len(g.keys); si++ {
+		csSigners = append(csSigners, si)
+	}
+	for i := range g.keys {
+		csSigners = append(csSigners, 100+i)
+	}
+	for _, si := range csSigners {
 		for ki := range g.keys {
 			k := &vmCase{vmVersion: 1, limit: 100000, code: []byte{0xac}, args: [][]byte{sigOf[si], msg, cp(g.keys[ki].pub)},
 				entryID: make([]byte, 32), txVersion: u64p(1)}
@@ -901,8 +921,11 @@ func (g *c08gen) aliasProgram() *vmCase {
 			key := g.keys[r.Intn(len(g.keys))]
 			msg := g.msgs[r.Intn(len(g.msgs))]
 			sg := ed25519.Sign(key.priv, msg)
-			if r.Intn(3) == 0 {
+			switch r.Intn(4) {
+			case 0:
 				sg[5] ^= 1
+			case 1:
+				sg = malleate(sg)
 			}
 			code = append(append(append(code, push(sg)...), push(msg)...), push(key.pub)...)
 			code = append(code, 0xac)
@@ -975,7 +998,7 @@ func c08one(c *Ctx, op byte, mode string, k *vmCase) {
 }
 
 func runC08(c *Ctx) {
-	c.Rule = "for each of the 256 opcode bytes: programs `[pushes] OP [immediate bytes]` on stacks that are empty, one operand short, shaped for the opcode (numbers from the boundary set 0,1,2^31..2^255±1,2^256-1, non-minimal zeros, 33-byte values; byte strings of 0..40/64/75/76 bytes; real Ed25519 keys, messages and (sometimes corrupted) signatures; predicates; CHECKMULTISIG layouts) or random (1..8 items), with the stack passed as arguments or built by pushes, gas limits 0..300, ..3000, 100000 and MaxGasAmount, with full / partial / absent transaction context; numeric opcodes additionally on the full boundary×boundary grid; short multi-opcode programs (1..3 rounds) whose operands are produced by DUP / OVER / TUCK / 2DUP / PICK / an alt-stack round trip / boolean-producing opcodes (NUMEQUAL, EQUAL, LESSTHAN…, NOT, 0NOTEQUAL, WITHIN, BOOLAND, CHECKSIG true and false) and consumed by OR, XOR, AND, INVERT, CAT, CATPUSHDATA, SUBSTR, LEFT, RIGHT, arithmetic, shifts, hashes, with the whole stack after every instruction compared and a process-global probe (`1 1 NUMEQUAL 0 NOT 1 1 EQUAL` must give 01 01 01) after every case of the stream; CHECKMULTISIG with n <= 3 (4 in the thorough tier) keys, optionally one key listed twice, and EVERY m-tuple (m <= n) of signers drawn from the listed keys and one non-listed key (repeated signatures, wrong order, all subsets), CHECKSIG on every signer x key pair, with real Ed25519 signatures; a case is distinct by its whole op line"
+	c.Rule = "for each of the 256 opcode bytes: programs `[pushes] OP [immediate bytes]` on stacks that are empty, one operand short, shaped for the opcode (numbers from the boundary set 0,1,2^31..2^255±1,2^256-1, non-minimal zeros, 33-byte values; byte strings of 0..40/64/75/76 bytes; real Ed25519 keys, messages and (sometimes corrupted) signatures; predicates; CHECKMULTISIG layouts) or random (1..8 items), with the stack passed as arguments or built by pushes, gas limits 0..300, ..3000, 100000 and MaxGasAmount, with full / partial / absent transaction context; numeric opcodes additionally on the full boundary×boundary grid; short multi-opcode programs (1..3 rounds) whose operands are produced by DUP / OVER / TUCK / 2DUP / PICK / an alt-stack round trip / boolean-producing opcodes (NUMEQUAL, EQUAL, LESSTHAN…, NOT, 0NOTEQUAL, WITHIN, BOOLAND, CHECKSIG true and false) and consumed by OR, XOR, AND, INVERT, CAT, CATPUSHDATA, SUBSTR, LEFT, RIGHT, arithmetic, shifts, hashes, with the whole stack after every instruction compared and a process-global probe (`1 1 NUMEQUAL 0 NOT 1 1 EQUAL` must give 01 01 01) after every case of the stream; CHECKMULTISIG with n <= 3 (4 in the thorough tier) keys, optionally one key listed twice, and EVERY m-tuple (m <= n) of signers drawn from the listed keys and one non-listed key (repeated signatures, wrong order, all subsets), CHECKSIG on every signer x key pair, with real Ed25519 signatures and, for every genuine signature R||S, its malleated twin R||(S+L) (must be rejected); a case is distinct by its whole op line"
 	g := &c08gen{c: c, keys: vmKeys(4), bnd: vmBoundaryNumbers()}
 	for i := 0; i < 2; i++ {
 		m := bytes.Repeat([]byte{byte(0xa0 + i)}, 32)
